@@ -49,6 +49,10 @@ def make_cases(run):
     cases = corpus_cases()
     for name, cfg, hist in G.boundary_cases():
         cases.append((name + ":" + hist[-2][-1], cfg, hist, "boundary"))
+    for name, cfg, hist in G.twin_boundary_cases():
+        cases.append((name, cfg, hist, "twin"))
+    for i in range(60 if quick else 2500):
+        cases.append(("twin%d" % i, ["src synthetic " + rng.choice(G.SYN[2:9])], G.gen_twin_history(rng), "twin"))
     nsyn = 150 if quick else 6000
     for i in range(nsyn):
         if rng.random() < 0.5:
@@ -147,11 +151,22 @@ def findings_of(r, meta):
     if len(dumps) >= 2 and dumps[0].startswith("wf ok") and not dumps[1].startswith("wf ok"):
         out.append(("wf:copy:%s" % ",".join(sorted(set(re.findall(r"([a-z-]+)@", dumps[1])))), "wf_check accepts the dump of the original and rejects the copy's: %s" % dumps[1][:300], False))
     shared_bad = []
+    # a twin history: nothing was applied to one side only, and no call created an object
+    # (object creation legitimately diverges: the copy's next_gp_index is ahead by nobj-1)
+    hist_ = r.get("script", [])
+    twin_ok = not any(h.startswith("mut ") for h in hist_) and not any(
+        h.startswith("both ") and (h.split(" ")[1] in ("misc", "gobj") or (h.split(" ")[1] == "distadd" and int(h.split(" ")[5]) & 1)) for h in hist_)
     for l in lines:
         if l.startswith("dup rc=") and "rc=0" not in l:
             out.append(("dup-fails", "hwloc_topology_dup failed on a loaded topology: " + l, False))
         elif l.startswith("obscmp DIFF") and lines[lines.index(l) - 1].startswith(("uninit", "allocseq", "seq ", "share", "overlap")):
             out.append(("dup-not-equal", "the copy does not report what the original reports: " + l[:400], False))
+        elif l.startswith(("opcmp DIFF", "obscmp DIFF")) and twin_ok and lines[lines.index(l) - (1 if l.startswith("opcmp") else 2)].startswith("both "):
+            # identical histories on the original and on the copy (no object created since the dup): they must stay identical
+            step = [h for h in r.get("script", []) if h.startswith("both ")]
+            nboth = sum(1 for x in lines[:lines.index(l)] if x.startswith("both "))
+            opname = step[nboth - 1].split(" ")[1] if 0 < nboth <= len(step) else "?"
+            out.append(("twin-diverges:" + opname, "the same call on the original and on the copy answers differently / leaves different observations after identical histories (%s): %s" % (step[nboth - 1] if 0 < nboth <= len(step) else "?", l[:500]), False))
         elif l.startswith("frame DIFF"):
             prev = lines[lines.index(l) - 1]
             out.append(("frame:" + (prev.split(" ")[0] if prev else "?"), "modifying/destroying one topology changed what the other reports (%s): %s" % (prev, l[:400]), False))
